@@ -28,6 +28,9 @@
  */
 #include "../C04/dtd_run.h"
 
+#ifndef PRE_MASK
+#define PRE_MASK 0x7f
+#endif
 #define TW 0
 #define TR 1
 #define TQ 2
@@ -91,14 +94,18 @@ static void scenario(int pre, int bst, int pat, int nfirst)
 
     int seen[NTILE] = { -1, -1 };          /* previous flow of N on the same tile */
     int lastw_in_n[NTILE] = { -1, -1 };    /* last writing flow of N on the tile so far */
+    int fstar[NTILE] = { -1, -1 };         /* released chain: the flow of N the last writer must finally point to */
     for(int f = 0; f < NF; f++) if(f < nfl) for(int t = 0; t < NTILE; t++) if(tile[f] == t) {
+        int released = (su[t].task != NULL && su[t].alive != TASK_IS_ALIVE);   /* the previous user had already released the chain */
+        /* N's previous flow on this tile is still the live end of the chain unless it was a reader linked behind a
+         * released chain (such a reader is activated at once and releases the chain again) */
+        int prev_live = (seen[t] >= 0) && (!released || lastw_in_n[t] >= 0);
         if(seen[t] < 0) {
             if(su[t].task != NULL) {
                 VASSERTM(PARENT_OF(n, f)->task == sw[t].task && PARENT_OF(n, f)->flow_index == sw[t].flow_index, "PARENT of the new flow = last writer of the tile");
-                if(su[t].alive == TASK_IS_ALIVE)
+                if(!released)
                     VASSERTM(DESC_OF(su[t].task, su[t].flow_index)->task == n && DESC_OF(su[t].task, su[t].flow_index)->flow_index == f, "DESC of the previous (live) user = the new flow");
-                else
-                    VASSERTM(DESC_OF(sw[t].task, sw[t].flow_index)->task == n && DESC_OF(sw[t].task, sw[t].flow_index)->flow_index == f, "previous user already released the chain: DESC of the last writer = the new flow");
+                else fstar[t] = f;
             } else {
                 VASSERTM(PARENT_OF(n, f)->task == NULL, "first use of a tile: no parent");
                 VASSERTM(n->super.data[f].data_in == &CP(t), "first use of a tile: the tile's own copy");
@@ -106,10 +113,13 @@ static void scenario(int pre, int bst, int pat, int nfirst)
         } else {
             if(lastw_in_n[t] >= 0) VASSERTM(PARENT_OF(n, f)->task == n && PARENT_OF(n, f)->flow_index == lastw_in_n[t], "same tile twice: PARENT = own earlier writing flow");
             else if(su[t].task != NULL) VASSERTM(PARENT_OF(n, f)->task == sw[t].task && PARENT_OF(n, f)->flow_index == sw[t].flow_index, "same tile twice (reads so far): PARENT = last writer of the tile");
-            VASSERTM(DESC_OF(n, seen[t])->task == n && DESC_OF(n, seen[t])->flow_index == f, "same tile twice: earlier flow points to the later one");
+            if(prev_live) VASSERTM(DESC_OF(n, seen[t])->task == n && DESC_OF(n, seen[t])->flow_index == f, "same tile twice: earlier (live) flow points to the later one");
+            else fstar[t] = f;
         }
         seen[t] = f; if(vp_is_write(op[f])) lastw_in_n[t] = f;
     }
+    for(int t = 0; t < NTILE; t++) if(fstar[t] >= 0)
+        VASSERTM(DESC_OF(sw[t].task, sw[t].flow_index)->task == n && DESC_OF(sw[t].task, sw[t].flow_index)->flow_index == fstar[t], "previous user already released the chain: DESC of the last writer = the new task's flow that ends its leading readers");
     for(int t = 0; t < NTILE; t++) if(seen[t] >= 0) {
         VASSERTM(TL(t).last_user.task == n && TL(t).last_user.flow_index == seen[t], "tile chain ends in the last flow of the new task on this tile");
         if(lastw_in_n[t] >= 0) VASSERTM(TL(t).last_writer.task == n && TL(t).last_writer.flow_index == lastw_in_n[t], "new task is the tile's last writer");
@@ -136,10 +146,27 @@ static void scenario(int pre, int bst, int pat, int nfirst)
     }
     prog_check_final();
     VASSERTM(n_ran_at >= 0, "the new task executed");
-    if(pre == 2 && bst == 1 && nfl >= 2 && nfirst) VWITNESS("live chain W->R, live writer on B, two-flow task, N tried before R");
+#if (PRE_MASK >> 2) & 1
+    if(pre == 2 && nfl >= 2 && nfirst && bst == (SAME_TILE ? 2 : 1)) VWITNESS("live chain W->R, multi-flow task, N tried before R");
+#endif
+#if (PRE_MASK >> 5) & 1
     if(pre == 5 && polls_gated >= 1) VWITNESS("writer N polled its gate (AGAIN) while the earlier reader was pending");
-    if(pre == 3 && SAME_TILE && pat == 2) VWITNESS("same tile R then RW behind a released chain");
-    if(pre == 6 && bst == 2) VWITNESS("everything before N already completed");
+#endif
+#if (PRE_MASK >> 3) & 1
+    if(pre == 3 && nfl >= 2 && polls_gated >= 1) VWITNESS("multi-flow writer behind a released chain, gated by the pending reader");
+#endif
+#if (PRE_MASK >> 0) & 1
+    if(pre == 0 && nfl >= 2 && n_ran_at >= 0) VWITNESS("multi-flow task behind a live writer");
+#endif
+#if (PRE_MASK >> 1) & 1
+    if(pre == 1 && nfl >= 2 && bst == 2) VWITNESS("everything before N already completed");
+#endif
+#if (PRE_MASK >> 4) & 1
+    if(pre == 4 && nfl >= 2) VWITNESS("reader of a released chain completed before N");
+#endif
+#if (PRE_MASK >> 6) & 1
+    if(pre == 6 && nfl >= 2) VWITNESS("chain-linked reader completed before N");
+#endif
 }
 
 #ifndef PRE_MASK
